@@ -77,7 +77,9 @@ def worker(args, scratch):
             nreq = rr.randrange(1, args["max_per_conn"])
             k = 0
             closed = False
-            while k < nreq and not closed:
+            maybe_closed = False    # the host asked to close its connection with the previous response
+            while k < nreq:
+                closed = False
                 depth = rr.choice([1, 1, 1, 2, 3, 4])
                 batch = []
                 for _ in range(depth):
@@ -107,7 +109,10 @@ def worker(args, scratch):
                         n_big = rr.choice([70000, 200000, 800000])
                         spec["framing"] = "cl"; spec.pop("chunks", None)
                         spec["body"] = vid.encode() + b"|" + (bytes(rr.getrandbits(8) for _ in range(1024)) * (n_big // 1024))
-                    if spec["framing"] == "close":
+                    if spec["framing"] != "close" and spec["status"] not in (204, 304) and rr.random() < 0.1:
+                        # the host announces that it closes its connection after this (normally framed) response
+                        spec["headers"].append(("Connection", "close")); spec["close"] = True
+                    if spec["framing"] == "close" or spec.get("close"):
                         closed = True
                     with lock:
                         registry[vid] = spec
@@ -120,23 +125,40 @@ def worker(args, scratch):
                 if rr.random() < 0.4:
                     segs = [rr.choice([1, 2, 5, 17, 100, 1400, 9000]) for _ in range(60)]
                 try:
-                    conn.send(wire, segments=segs)
-                    prev = None
-                    for (vid, method, target, hs, body, chunked, spec, raw) in batch:
-                        resp = conn.read_response(method.encode())
-                        check(vid, method, target, hs, body, chunked, spec, resp, dest, len(batch), segs is not None)
-                        prev = [method, spec["status"], spec["framing"], len(spec["body"]), bool(spec.get("segments")), len(body), chunked is not None]
+                    try:
+                        conn.send(wire, segments=segs)
+                        first = conn.read_response(batch[0][1].encode())
+                    except (OSError, rawhttp.ParseError):
+                        # after a response with which the host closed its connection, the client connection may be closed as well: a client
+                        # then reconnects and repeats the request. Anything else (an error status made up by the proxy, a request relayed
+                        # and then lost) is not transparent.
+                        if not maybe_closed or any(w.upstream(b[0]) for b in batch):
+                            raise
+                        bump("reconnects_after_host_closed_its_connection")
+                        conn.close()
+                        conn = w.open(dest, root, timeout=60)
+                        conn.send(wire, segments=segs)
+                        first = conn.read_response(batch[0][1].encode())
+                    else:
+                        if maybe_closed:
+                            bump("client_connection_survived_host_close")
+                    for bi, (vid, method, target, hs, body, chunked, spec, raw) in enumerate(batch):
+                        resp = first if bi == 0 else conn.read_response(method.encode())
+                        check(vid, method, target, hs, body, chunked, spec, resp, dest, len(batch), segs is not None, after_host_close=maybe_closed and bi == 0)
                 except Exception as e:  # noqa
-                    viol("exchange-failed", {"conn": ci, "dest": dest, "ids": [b[0] for b in batch], "err": repr(e)})
+                    viol("exchange-failed", {"conn": ci, "dest": dest, "ids": [b[0] for b in batch], "err": repr(e), "after_host_close": maybe_closed})
                     break
+                maybe_closed = closed
             conn.close()
 
-        def check(vid, method, target, hs, body, chunked, spec, resp, dest, depth, segmented):
+        def check(vid, method, target, hs, body, chunked, spec, resp, dest, depth, segmented, after_host_close=False):
             with lock:
                 res["evaluations"] += 1
             ups = w.upstream(vid)
             wit = {"id": vid, "dest": dest, "method": method, "target": target, "req_body_len": len(body), "req_chunked": chunked is not None, "pipeline_depth": depth,
-                   "resp_status": spec["status"], "resp_framing": spec["framing"], "resp_body_len": len(spec["body"])}
+                   "resp_status": spec["status"], "resp_framing": spec["framing"], "resp_body_len": len(spec["body"]), "first_request_after_the_host_closed_its_connection": after_host_close}
+            if after_host_close:
+                bump("requests_following_a_host_close")
             if len(ups) != 1:
                 logs = []
                 try:
